@@ -1,6 +1,8 @@
 package zzh
 
 import (
+	"math"
+
 	"github.com/sahandsafizadeh/qeep/tensor"
 	vrt "github.com/sahandsafizadeh/qeep/zzvrt"
 )
@@ -408,5 +410,65 @@ func H_C06_nelems() {
 	vrt.Assert(op+": Shape() is the result's shape", sameDims(y.Shape(), d))
 	vrt.Assert(op+": NElems is the product of Shape", y.NElems() == numel(d))
 	vrt.Assert(op+": the data holds exactly NElems elements", len(vrt.Flat(y)) == numel(d))
+	vrt.Reach("done")
+}
+
+// H_C06_fpzero: BIT-PRECISE (binary64): construction and movement keep the sign of a zero element - the
+// one bit the real-number model of the other C06 harnesses cannot see.  Zeros holds +0 and Full(dims, -0)
+// holds -0 whichever was built first (same innermost size), and TensorOf / Slice / Reshape / Transpose /
+// Concat deliver a -0 element as -0 and a +0 element as +0.
+func H_C06_fpzero() {
+	n := vrt.Param("n")
+	order := vrt.Param("order")
+	z0 := 0.
+	negz := -z0
+	c := conf(false)
+	var z, f T
+	var e1, e2 error
+	if order == 0 {
+		z, e1 = tensor.Zeros([]int{2, n}, c)
+		f, e2 = tensor.Full([]int{n}, negz, c)
+	} else {
+		f, e2 = tensor.Full([]int{n}, negz, c)
+		z, e1 = tensor.Zeros([]int{2, n}, c)
+	}
+	vrt.Assert("Zeros accepted", e1 == nil)
+	vrt.Assert("Full accepted", e2 == nil)
+	if e1 != nil || e2 != nil {
+		return
+	}
+	for i := 0; i < n; i++ {
+		a, _ := z.At(1, i)
+		b, _ := f.At(i)
+		vrt.Assert("bit-precise: Zeros holds +0 whatever constant tensor was built before", !math.Signbit(a))
+		vrt.Assert("bit-precise: Full(dims, -0) holds -0 whatever constant tensor was built before", math.Signbit(b))
+	}
+	src := make([]float64, 2*n)
+	negs := make([]bool, 2*n)
+	for k := range src {
+		negs[k] = vrt.Bool(vrt.Nm("neg", k)) // solver-chosen: which positions hold -0
+		src[k] = vrt.IteF(negs[k], negz, z0)
+	}
+	x := fromFlat(src, []int{2, n}, false)
+	y, err := x.Reshape([]int{n, 2})
+	vrt.Assert("Reshape accepted", err == nil)
+	w, err2 := x.Transpose()
+	vrt.Assert("Transpose accepted", err2 == nil)
+	cc, err3 := tensor.Concat([]T{x, z}, 0)
+	vrt.Assert("Concat accepted", err3 == nil)
+	if err != nil || err2 != nil || err3 != nil {
+		return
+	}
+	for k := range src {
+		neg := negs[k]
+		a, _ := x.At(k/n, k%n)
+		b, _ := y.At(k/2, k%2)
+		d, _ := w.At(k%n, k/n)
+		e, _ := cc.At(k/n, k%n)
+		vrt.Assert("bit-precise: TensorOf keeps the sign of zero", math.Signbit(a) == neg)
+		vrt.Assert("bit-precise: Reshape keeps the sign of zero", math.Signbit(b) == neg)
+		vrt.Assert("bit-precise: Transpose keeps the sign of zero", math.Signbit(d) == neg)
+		vrt.Assert("bit-precise: Concat keeps the sign of zero", math.Signbit(e) == neg)
+	}
 	vrt.Reach("done")
 }
